@@ -427,6 +427,23 @@ func (ex *Exec) ghostGet(st *State, g *GhostVar) Val {
 	return Val{T: name, S: s, GoT: gt}
 }
 
+// ghostHavocIfKnown: like ghostHavoc, but a ghost variable whose type names a package this run does not
+// know (it belongs to another property's packages and cannot be mentioned here) is skipped.
+func (ex *Exec) ghostHavocIfKnown(st *State, name string) {
+	defer func() {
+		if r := recover(); r != nil {
+			if _, ok := r.(*elabError); ok {
+				return
+			}
+			if _, ok := r.(*oofError); ok {
+				return
+			}
+			panic(r)
+		}
+	}()
+	ex.ghostHavoc(st, name)
+}
+
 func (ex *Exec) ghostHavoc(st *State, name string) {
 	g, ok := ex.cs.Ghost[name]
 	if !ok {
